@@ -2,8 +2,10 @@ package props
 
 import (
 	"context"
+	"errors"
 	"fmt"
 	"net/http"
+	"os/exec"
 	"time"
 
 	mcp "trpc.group/trpc-go/trpc-mcp-go"
@@ -117,15 +119,16 @@ var _ sim.Options
 
 // stdioLink is one simulated child process: a StdioServer instance behind three pipes.
 type stdioLink struct {
-	Name    string
-	Srv     *mcp.StdioServer
-	ToSrv   *sim.Pipe // client stdin -> server
-	FromSrv *sim.Pipe // server stdout -> client
-	Err     *sim.Pipe
-	Exited  chan struct{}
-	exited  bool
-	cancel  context.CancelFunc
-	Task    *sim.Task
+	Name      string
+	Srv       *mcp.StdioServer
+	ToSrv     *sim.Pipe // client stdin -> server
+	FromSrv   *sim.Pipe // server stdout -> client
+	Err       *sim.Pipe
+	Exited    chan struct{}
+	exited    bool
+	ExitErr   error // what (*exec.Cmd).Wait reports: nil for a clean exit
+	cancel    context.CancelFunc
+	Task      *sim.Task
 	ListenErr error
 }
 
@@ -152,8 +155,16 @@ func (l *stdioLink) exit() {
 	}
 }
 
+// ExitClean makes the child leave on its own with status 0 (its main returns).
+func (l *stdioLink) ExitClean() {
+	l.cancel()
+}
+
 // Kill is kill -9 of the child: every pipe end of the child disappears at once.
 func (l *stdioLink) Kill() {
+	if !l.exited {
+		l.ExitErr = errors.New("signal: killed")
+	}
 	l.cancel()
 	l.FromSrv.KillWriter()
 	l.Err.KillWriter()
@@ -194,7 +205,8 @@ func (w *World) newStdioClient(name string) *Client {
 	if err != nil {
 		panic(err)
 	}
-	mcp.VerifAttachStdio(cl, link.ToSrv.Writer(), link.FromSrv.Reader(), link.Err.Reader(), link.Exited,
+	mcp.VerifAttachStdio(cl, link.ToSrv.Writer(), link.FromSrv.Reader(), link.Err.Reader(),
+		func(cmd *exec.Cmd) { s.RegisterProc(cmd, link.Exited, func() error { return link.ExitErr }) },
 		func(n string, f func()) { s.GoLib(name+"/"+n, f) })
 	return &Client{Name: name, Kind: "stdio", API: cl, Stdio: cl, Link: link}
 }
